@@ -250,22 +250,26 @@ Definition identifier_shape_ok (g : grammar_t) (name : string) : bool :=
   rule_is g name RAtomic identifier_body
   && negb (has_rule g "ASCII_ALPHANUMERIC") && negb (has_rule g "ASCII_ALPHA").
 
-(* Sound static test: [fails_on_ident g d e = Some n] implies that [e] FAILS (with any fuel >= n)
-   on every input that starts with an identifier byte. *)
-Fixpoint fails_on_ident (g : grammar_t) (d : nat) {struct d} : peg -> option nat :=
+(* [head_ok P rest]: the input is empty or starts with a byte of class P *)
+Definition head_ok (P : N -> bool) (rest : list N) : bool :=
+  match rest with [] => true | b :: _ => P b end.
+
+(* Sound static test: [fails_at P g d e = Some n] implies that [e] FAILS (with any fuel >= n) on
+   every input that is empty or starts with a byte of class P. *)
+Fixpoint fails_at (P : N -> bool) (g : grammar_t) (d : nat) {struct d} : peg -> option nat :=
   match d with
   | 0 => fun _ => None
   | S d' =>
     fix go (e : peg) : option nat :=
       match e with
-      | PStr (c :: _) => if is_ident_byte c then None else Some 1
+      | PStr (c :: _) => if P c then None else Some 1
       | PSeq a _ => match go a with Some n => Some (S n) | None => None end
       | PAlt a b => match go a, go b with
                     | Some n, Some m => Some (S (Nat.max n m))
                     | _, _ => None
                     end
       | PId name => match lookup g name with
-                    | Some (_, body) => match fails_on_ident g d' body with
+                    | Some (_, body) => match fails_at P g d' body with
                                         | Some n => Some (S n)
                                         | None => None
                                         end
@@ -275,15 +279,19 @@ Fixpoint fails_on_ident (g : grammar_t) (d : nat) {struct d} : peg -> option nat
       end
   end.
 
-(* The implicit skip is the identity in front of an identifier byte: both WHITESPACE and COMMENT
-   exist and fail there.  [skip_fuel g] = Some n: fuel n suffices for that. *)
-Definition skip_fuel (g : grammar_t) : option nat :=
+(* The implicit skip is the identity at the end of input and in front of a byte of class P:
+   both WHITESPACE and COMMENT exist and fail there.  [skip_fuel_at P g = Some n]: fuel n
+   suffices to see that. *)
+Definition skip_fuel_at (P : N -> bool) (g : grammar_t) : option nat :=
   if has_rule g "WHITESPACE" && has_rule g "COMMENT" then
-    match fails_on_ident g 3 (PId "WHITESPACE"), fails_on_ident g 3 (PId "COMMENT") with
+    match fails_at P g 3 (PId "WHITESPACE"), fails_at P g 3 (PId "COMMENT") with
     | Some n, Some m => Some (Nat.max n m + 3)
     | _, _ => None
     end
   else None.
+
+(* ... in front of an identifier byte *)
+Definition skip_fuel (g : grammar_t) : option nat := skip_fuel_at is_ident_byte g.
 
 Definition skip_ok (g : grammar_t) : bool :=
   match skip_fuel g with Some _ => true | None => false end.
@@ -300,3 +308,146 @@ Definition alias_name_ok (g : grammar_t) : bool :=
           (PSeq (PSeq (PNeg (PId "builtin_type")) (PNeg (PId "builtin_alias"))) (PId "identifier"))
   && identifier_shape_ok g "identifier" && kw_rule_ok g "builtin_type"
   && kw_rule_ok g "builtin_alias" && ident_char_ok g && skip_ok g.
+
+(* ---------- word positions (variable names in expressions and patterns) ---------- *)
+
+(* A small sound abstract interpreter for inputs of the form  s ++ tail  where
+      s    is a word [A-Za-z][A-Za-z0-9_]*            (PegCorrect.ident_word)
+      tail is empty or starts with a byte of class T  (a "terminator" class; every T byte must
+           be a non-identifier byte)
+   For an expression e it computes up to three facts, each of the form (W, n): "for every such
+   input with s NOT in the word list W and fuel >= n + |s| ...":
+      aF : e FAILS;
+      aX : e fails OR succeeds consuming exactly s (the remaining input is tail);
+      aZ : e succeeds consuming nothing and producing no node.
+   Soundness: PegCorrect.ana_sound.  It is used to show that all alternatives tried BEFORE the
+   plain-identifier alternative of single_expression / pattern fail on a word that is not
+   reserved, so the word is parsed as a variable. *)
+
+Definition ares := option (list (list N) * nat).
+
+Record ana_res := mk_ana { aF : ares; aX : ares; aZ : ares }.
+
+Definition ana_none : ana_res := mk_ana None None None.
+Definition ana_fail (f : ares) : ana_res := mk_ana f f None.
+
+(* a literal l fails on s ++ tail unless ... *)
+Definition lit_fails (T : N -> bool) (l : list N) : ares :=
+  match l with
+  | [] => None
+  | c :: _ =>
+    if is_alpha_byte c then
+      match after_run l with
+      | [] => None                       (* a pure word: may well be a prefix of s *)
+      | p :: _ => if T p then Some ([ident_run l], 1)   (* matches only if s = ident_run l *)
+                  else Some ([], 1)      (* needs the non-terminator p right after a word *)
+      end
+    else Some ([], 1)                    (* s starts with a letter, l does not *)
+  end.
+
+Definition comb (x y : ares) : ares :=
+  match x, y with
+  | Some (W1, n1), Some (W2, n2) => Some ((W1 ++ W2)%list, S (Nat.max n1 n2))
+  | _, _ => None
+  end.
+
+Definition bump (x : ares) : ares :=
+  match x with Some (W, n) => Some (W, S n) | None => None end.
+
+Fixpoint ana (T : N -> bool) (g : grammar_t) (d : nat) {struct d} : peg -> ana_res :=
+  match d with
+  | 0 => fun _ => ana_none
+  | S d' =>
+    fix go (e : peg) : ana_res :=
+      match e with
+      | PStr l => ana_fail (lit_fails T l)
+      | PAlt a b =>
+        let ra := go a in let rb := go b in
+        mk_ana (comb (aF ra) (aF rb)) (comb (aX ra) (aX rb)) None
+      | PRep x => mk_ana None None (bump (aF (go x)))
+      | PSeq a b =>
+        let ra := go a in
+        match aF ra with
+        | Some (W, n) => ana_fail (Some (W, S n))
+        | None =>
+          match aZ ra with
+          | Some (W1, n1) =>
+            (* a consumes nothing; the skip in front of the word s is the identity; b fails *)
+            match aF (go b), skip_fuel g with
+            | Some (W2, n2), Some sf =>
+              ana_fail (Some ((W1 ++ W2)%list, S (Nat.max n1 (Nat.max n2 sf))))
+            | _, _ => ana_none
+            end
+          | None =>
+            (* a takes exactly s; the skip at tail is the identity; b fails at tail *)
+            match aX ra, fails_at T g 4 b, skip_fuel_at T g with
+            | Some (W, n), Some m, Some sf => ana_fail (Some (W, S (Nat.max n (Nat.max m sf))))
+            | _, _, _ => ana_none
+            end
+          end
+        end
+      | PId name =>
+        match lookup g name with
+        | Some (k, body) =>
+          if kw_rule_ok g name then
+            match kw_lits g name with
+            | Some (ls, n) => mk_ana (Some (ls, n + 6)) (Some ([], n + 6)) None
+            | None => ana_none
+            end
+          else if (name =? "function_name") && function_name_ok g then
+            match kw_lits g "builtin_function", skip_fuel g with
+            | Some (_, n), Some sf => mk_ana None (Some ([], n + sf + 12)) None
+            | _, _ => ana_none
+            end
+          else let r := ana T g d' body in mk_ana (bump (aF r)) (bump (aX r)) None
+        | None =>
+          if name =? "ASCII_DIGIT" then ana_fail (Some ([], 1)) else ana_none
+        end
+      | _ => ana_none
+      end
+  end.
+
+(* position of alternative [PId inner] in a left-nested choice: the choice of everything tried
+   before it, and its nesting depth *)
+Fixpoint alt_pre (inner : string) (e : peg) : option (peg * nat) :=
+  match e with
+  | PAlt x y =>
+    let deeper := match alt_pre inner x with
+                  | Some (pre, k) => Some (pre, S k)
+                  | None => None
+                  end in
+    match y with
+    | PId v => if v =? inner then Some (x, 0) else deeper
+    | _ => deeper
+    end
+  | _ => None
+  end.
+
+(* Rule [outer] is a normal rule whose body is a choice with the alternative [inner], where
+   inner = { identifier }; everything tried before [inner] fails on non-reserved words.
+   Result: the reserved words W and a fuel constant. *)
+Definition word_position (T : N -> bool) (g : grammar_t) (outer inner : string) : ares :=
+  match lookup g outer with
+  | Some (RNormal, body) =>
+    match alt_pre inner body with
+    | Some (pre, k) =>
+      if rule_is g inner RNormal (PId "identifier") && identifier_shape_ok g "identifier"
+         && ident_char_ok g && negb (special outer) && negb (special inner)
+      then match aF (ana T g 6 pre) with
+           | Some (W, n) => Some (W, n + k + 10)
+           | None => None
+           end
+      else None
+    | None => None
+    end
+  | _ => None
+  end.
+
+(* bytes that may follow a variable in an expression for the theorem to apply: not an identifier
+   byte, not blank, not "/" (comment), not "(" (call), not ":" (jet::, witness::), not "!"
+   (macro-like builtins) *)
+Definition is_expr_terminator (c : N) : bool :=
+  negb (is_ident_byte c) && negb (existsb (N.eqb c) [32; 9; 10; 13; 47; 40; 58; 33]%N).
+
+(* after a variable pattern anything but an identifier byte may follow *)
+Definition is_nonident (c : N) : bool := negb (is_ident_byte c).
